@@ -1298,6 +1298,138 @@ theorem seq64O_diagline_runs (emb : List (List X)) (eps : X) (dim : Nat)
   rw [seqO_diagline_eq rnd64 _ dim (noOvf_of_bounded _ dim h)]
   exact seq64_diagline_runs emb eps dim
 
+private theorem seqOps_generic (O : FOps X) (hO : SymOps O) (emb : List (List X)) (eps : X)
+    (dim : Nat) (mv : Bool) (coords : List (List (Nat × Nat)))
+    (hc : ∀ cs ∈ coords, ∀ c ∈ cs, c.1 < emb.length ∧ c.2 < emb.length) (M : Int → Bool)
+    (hM : mv = true → M = accM (missingMaskX emb)) :
+    kernel mv (coords.map (·.map fun (c : Nat × Nat) =>
+        (lineVal O (fun _ _ => false)
+          (fun I j => StructC08.metric_supremum O I j dim (accX emb))
+          eps false true c.1 c.2, M c.1 || M c.2))) emb.length
+      = kernel mv (coords.map (·.map fun (c : Nat × Nat) =>
+        (lineVal vOps (accR (fixedThresholdOps O emb eps dim mv)) (fun _ _ => none) (some 0) true true
+          c.1 c.2, M c.1 || M c.2))) emb.length := by
+  apply kernel_map_congr
+  intro cs hcs c hcc
+  refine ⟨rfl, ?_⟩
+  intro hmiss
+  have hlt := hc cs hcs c hcc
+  simp only [lineVal, Bool.false_eq_true, if_false, if_true, accR, Int.toNat_natCast]
+  congr 1
+  apply nearOps_eq_matrix O hO emb eps dim mv c.1 c.2 hlt.1 hlt.2
+  intro hmv
+  have h1 := hmiss hmv
+  rw [hM hmv] at h1
+  simpa [accM] using h1
+
+/-- **sequential = matrix mode for every structure of double operations** with a commutative
+`abs(a - b)` whose self-distance is the literal `0` (`SymOps`) — in particular with overflow of a
+finite difference to `inf` (`xOpsO`).  Every embedding, threshold, size. -/
+theorem seqOps_vertline_eq_matrix (O : FOps X) (hO : SymOps O) (emb : List (List X)) (eps : X)
+    (dim : Nat) :
+    StructC08._vertline_dist_sequential O emb.length (List.replicate emb.length 0)
+        (accX emb) eps dim
+      = StructC08._vertline_dist emb.length (List.replicate emb.length 0)
+          (accR (fixedThresholdOps O emb eps dim false)) := by
+  unfold StructC08._vertline_dist_sequential StructC08._vertline_dist
+  rw [lineDist_kernel, lineDist_kernel]
+  simp only [Bool.false_eq_true, if_false]
+  rw [vert_subs emb.length (fun I j => (lineVal O (fun _ _ => false)
+        (fun I j => StructC08.metric_supremum O I j dim (accX emb)) eps false true I j,
+        (false || false))),
+    vert_subs emb.length (fun I j => (lineVal vOps (accR (fixedThresholdOps O emb eps dim false))
+        (fun _ _ => none) (some 0) true true I j, (false || false)))]
+  exact seqOps_generic O hO emb eps dim false (vertCoords emb.length) (vertCoords_lt _)
+    (fun _ => false) (by simp)
+
+theorem seqOps_diagline_eq_matrix (O : FOps X) (hO : SymOps O) (emb : List (List X)) (eps : X)
+    (dim : Nat) :
+    StructC08._diagline_dist_sequential O emb.length (List.replicate emb.length 0)
+        (accX emb) eps dim
+      = StructC08._diagline_dist emb.length (List.replicate emb.length 0)
+          (accR (fixedThresholdOps O emb eps dim false)) := by
+  unfold StructC08._diagline_dist_sequential StructC08._diagline_dist
+  rw [lineDist_kernel, lineDist_kernel]
+  simp only [if_true]
+  rw [diag_subs emb.length (fun I j => (lineVal O (fun _ _ => false)
+        (fun I j => StructC08.metric_supremum O I j dim (accX emb)) eps false true I j,
+        (false || false))),
+    diag_subs emb.length (fun I j => (lineVal vOps (accR (fixedThresholdOps O emb eps dim false))
+        (fun _ _ => none) (some 0) true true I j, (false || false)))]
+  exact seqOps_generic O hO emb eps dim false (diagCoords emb.length) (diagCoords_lt _)
+    (fun _ => false) (by simp)
+
+theorem seqOps_vertline_mv_eq_matrix (O : FOps X) (hO : SymOps O) (emb : List (List X))
+    (eps : X) (dim : Nat) :
+    StructC08._vertline_dist_sequential_missingvalues O emb.length
+        (List.replicate emb.length 0) (accX emb) eps dim (accM (missingMaskX emb))
+      = StructC08._vertline_dist_missingvalues emb.length (List.replicate emb.length 0)
+          (accR (fixedThresholdOps O emb eps dim true)) (accM (missingMaskX emb)) := by
+  unfold StructC08._vertline_dist_sequential_missingvalues StructC08._vertline_dist_missingvalues
+  rw [lineDist_kernel, lineDist_kernel]
+  simp only [Bool.false_eq_true, if_false]
+  rw [vert_subs emb.length (fun I j => (lineVal O (fun _ _ => false)
+        (fun I j => StructC08.metric_supremum O I j dim (accX emb)) eps false true I j,
+        (accM (missingMaskX emb) I || accM (missingMaskX emb) j))),
+    vert_subs emb.length (fun I j => (lineVal vOps (accR (fixedThresholdOps O emb eps dim true))
+        (fun _ _ => none) (some 0) true true I j,
+        (accM (missingMaskX emb) I || accM (missingMaskX emb) j)))]
+  exact seqOps_generic O hO emb eps dim true (vertCoords emb.length) (vertCoords_lt _)
+    (accM (missingMaskX emb)) (fun _ => rfl)
+
+theorem seqOps_diagline_mv_eq_matrix (O : FOps X) (hO : SymOps O) (emb : List (List X))
+    (eps : X) (dim : Nat) :
+    StructC08._diagline_dist_sequential_missingvalues O emb.length
+        (List.replicate emb.length 0) (accX emb) eps dim (accM (missingMaskX emb))
+      = StructC08._diagline_dist_missingvalues emb.length (List.replicate emb.length 0)
+          (accR (fixedThresholdOps O emb eps dim true)) (accM (missingMaskX emb)) := by
+  unfold StructC08._diagline_dist_sequential_missingvalues StructC08._diagline_dist_missingvalues
+  rw [lineDist_kernel, lineDist_kernel]
+  simp only [if_true]
+  rw [diag_subs emb.length (fun I j => (lineVal O (fun _ _ => false)
+        (fun I j => StructC08.metric_supremum O I j dim (accX emb)) eps false true I j,
+        (accM (missingMaskX emb) I || accM (missingMaskX emb) j))),
+    diag_subs emb.length (fun I j => (lineVal vOps (accR (fixedThresholdOps O emb eps dim true))
+        (fun _ _ => none) (some 0) true true I j,
+        (accM (missingMaskX emb) I || accM (missingMaskX emb) j)))]
+  exact seqOps_generic O hO emb eps dim true (diagCoords emb.length) (diagCoords_lt _)
+    (accM (missingMaskX emb)) (fun _ => rfl)
+
+/-- **with overflow, at binary64, no hypothesis**: the four sequential kernels the driver executes
+(`xOpsO rnd64`) are the matrix kernels on the matrix stored from the distance kernel with overflow,
+for every embedding (finite of any magnitude, `±inf`, NaN), threshold and size -/
+theorem seq64O_eq_matrix (emb : List (List X)) (eps : X) (dim : Nat) :
+    StructC08._vertline_dist_sequential (xOpsO rnd64) emb.length (List.replicate emb.length 0)
+        (accX emb) eps dim
+      = StructC08._vertline_dist emb.length (List.replicate emb.length 0)
+          (accR (fixedThresholdOps (xOpsO rnd64) emb eps dim false)) ∧
+    StructC08._diagline_dist_sequential (xOpsO rnd64) emb.length (List.replicate emb.length 0)
+        (accX emb) eps dim
+      = StructC08._diagline_dist emb.length (List.replicate emb.length 0)
+          (accR (fixedThresholdOps (xOpsO rnd64) emb eps dim false)) ∧
+    StructC08._vertline_dist_sequential_missingvalues (xOpsO rnd64) emb.length
+        (List.replicate emb.length 0) (accX emb) eps dim (accM (missingMaskX emb))
+      = StructC08._vertline_dist_missingvalues emb.length (List.replicate emb.length 0)
+          (accR (fixedThresholdOps (xOpsO rnd64) emb eps dim true)) (accM (missingMaskX emb)) ∧
+    StructC08._diagline_dist_sequential_missingvalues (xOpsO rnd64) emb.length
+        (List.replicate emb.length 0) (accX emb) eps dim (accM (missingMaskX emb))
+      = StructC08._diagline_dist_missingvalues emb.length (List.replicate emb.length 0)
+          (accR (fixedThresholdOps (xOpsO rnd64) emb eps dim true)) (accM (missingMaskX emb)) :=
+  ⟨seqOps_vertline_eq_matrix _ (symOps_xOpsO rnd64 rnd64_zero) emb eps dim,
+    seqOps_diagline_eq_matrix _ (symOps_xOpsO rnd64 rnd64_zero) emb eps dim,
+    seqOps_vertline_mv_eq_matrix _ (symOps_xOpsO rnd64 rnd64_zero) emb eps dim,
+    seqOps_diagline_mv_eq_matrix _ (symOps_xOpsO rnd64 rnd64_zero) emb eps dim⟩
+
+/-- **rounding and overflow together never invent a recurrence**: on every embedding (finite
+samples of any magnitude, `±inf`, NaN) and for every double / `inf` / NaN threshold, a pair that the
+compiled arithmetic (binary64 with overflow) calls recurrent is recurrent in exact arithmetic -/
+theorem binary64_overflow_subset_exact (I j dim : Int) (E : Int → Int → X) (eps : X)
+    (heps : ∀ t, eps = .fin t → IsF64 t)
+    (h : (xOpsO rnd64).lt (StructC08.metric_supremum (xOpsO rnd64) I j dim E) eps = true) :
+    (xOps id).lt (StructC08.metric_supremum (xOps id) I j dim E) eps = true :=
+  lt_of_accRelO rnd64 _ _ (metric_accRelO rnd64 rnd64_mono I j dim E) eps
+    (fixedEps_rnd64 eps heps) h
+
 /-- the overflow is real and matters only for `threshold = inf`: `±1.5·2^1023` are doubles, their
 difference `3·2^1023 ≥ 2^1024` is `+inf`; the pair is not recurrent even for an infinite threshold,
 while the model without overflow would accept it -/
